@@ -250,3 +250,193 @@ def plan_C11(tier, seed):
 
 PLANS = {"C01": plan_C01, "C02": plan_C02, "C03": plan_C03, "C04": plan_C04, "C05": plan_C05,
          "C06": plan_C06, "C07": plan_C07, "C08": plan_C08, "C11": plan_C11}
+
+
+# ----------------------------------------------------------------------------------
+# differential plans (C09, C18, part of C10)
+
+def _pair(idx, da, ba, db, bb, prop, th):
+    name = "p%02d_%s_%s_%s" % (idx, da.name, ba.name.lower(), bb.name.lower() if da is db else db.name)
+    p = E.PairModule(name[:60], da, ba, db, bb, prop)
+    E.pair_harnesses(p, th)
+    return p if p.harnesses else None
+
+
+def plan_C09_pairs(tier, seed):
+    th = tier == "thorough"
+    B = BUNDLES
+    decls = C.k1()
+    decls += [d for d in C.k2() if d.name in (("k2_i8", "k2_u8", "k2_i64", "k2_i8_mid", "k2_isize", "k2_u16") if not th else
+                                               tuple(x.name for x in C.k2()))]
+    decls += [d for d in C.k3() if d.name in ("k3_i8_lo", "k3_u8_hi", "k3_i64_lo", "k3_i16_zero", "k3_u64_hi") or th]
+    decls += [d for d in C.k4() if d.name in ("k4_dup", "k4_dup_h", "k4_swap_h", "k4_esc")]
+    decls += C.k8(seed, 8 if th else 2)
+    full_pairs = [("M", "T"), ("M", "A"), ("T", "A"), ("R", "A"), ("I", "M"), ("R", "T")]
+    steer = [("S_as", "T"), ("S_asfs", "M"), ("S_asn", "M"), ("S_itfs", "M"), ("S_it", "M"),
+             ("S_itr", "T"), ("X1", "X2"), ("FSa1", "T"), ("FSa1t", "M"), ("S_it", "I"), ("ITaf", "ITn")]
+    out = []
+    i = 0
+    for d in decls:
+        pairs = full_pairs + steer
+        if not th:
+            # rotate: every declaration gets the two big pairs and a third of the others
+            h = sum(map(ord, d.name))
+            pairs = [("M", "T"), ("T", "A")] + [p for j, p in enumerate(full_pairs[2:] + steer) if (j + h) % 3 == 0]
+            if d.family == "K4":
+                pairs = [("M", "T"), ("T", "A"), ("X1", "X2"), ("FSa1", "T"), ("S_asfs", "M")]
+        for ba, bb in pairs:
+            if not (B[ba].legal_for(d) and B[bb].legal_for(d)):
+                continue
+            p = _pair(i, d, B[ba], d, B[bb], "C09", th)
+            if p:
+                out.append(p)
+                i += 1
+    return out
+
+
+def plan_C18_pairs(tier, seed):
+    th = tier == "thorough"
+    B = BUNDLES
+    out = []
+    i = 0
+    for fid, members in C.k7(th):
+        ref = members[0]
+        for j, mbr in enumerate(members[1:]):
+            for bn in (["A", "M", "T"] if th else [["A", "T", "M"][j % 3]]):
+                if not B[bn].legal_for(ref):
+                    continue
+                p = _pair(i, ref, B[bn], mbr, B[bn], "C18", th)
+                if p:
+                    out.append(p)
+                    i += 1
+    return out
+
+
+def plan_C18_oracle(tier, seed):
+    """every family member against the oracle of the MAP (same DISC/NAMES for all members)"""
+    th = tier == "thorough"
+    decls = []
+    for fid, members in C.k7(th):
+        decls += members
+
+    def fill(m):
+        m.add(E.h_try_from(m))
+        m.add(E.h_minmax_next(m))
+        m.add(E.h_as_str(m))
+        m.add(E.h_from_str_pos(m))
+        m.add(E.h_content(m, "iter"))
+        m.add(E.h_content(m, "range"))
+        m.add(E.h_content(m, "names"))
+    return _mods(decls, ["A"] if not th else ["A", "T"], "C18", fill)
+
+
+def plan_C10_split(tier, seed):
+    """one attribute vs the same features split over several attributes"""
+    th = tier == "thorough"
+    decls = C.k1() + [d for d in C.k2() if d.name in ("k2_i8", "k2_u64")]
+    out = []
+    i = 0
+    for d in decls:
+        for bn in ("A", "T", "M"):
+            b3 = BUNDLES[bn]
+            if not b3.legal_for(d):
+                continue
+            b1 = C.Bundle(bn + "1", b3.feats, split=1)
+            b5 = C.Bundle(bn + "5", b3.feats, split=5)
+            p = _pair(i, d, b1, d, b5, "C10", th)
+            if p:
+                out.append(p)
+                i += 1
+    return out
+
+
+# ----------------------------------------------------------------------------------
+# C10 base cases: the documented catalogue (src/lib.rs), each one compiled
+
+class BaseCase:
+    role = "base"
+
+    def __init__(self, cid, decl, bundle, touch="", doc=""):
+        self.cid = cid
+        self.decl = decl
+        self.bundle = bundle
+        self.touch = touch
+        self.doc = doc
+        self.name = "bc_" + cid
+        self.harnesses = []
+        self._m = E.Module(decl, bundle, "C10")
+        self._m.name = self.name
+
+    def header(self):
+        return self._m.header()
+
+    def text(self, drop_sub=False):
+        t = self._m.header()
+        if self.touch:
+            t += "\npub fn touch() {\n%s\n}\n" % E.indent(self.touch, 4)
+        return t
+
+    def harness_ids(self):
+        return {}
+
+
+def base_cases():
+    g = C.mk("bg", "i16", [-2, -1, 0, 1, 2], "BC", order="shuffled", seed=4, implicit="alt", renames={0: "zero"})
+    h = C.mk("bh", "i16", [-7, -6, 0, 3, 4, 100], "BC", order="shuffled", seed=4, implicit="alt", renames={0: "zero"})
+    sg = C.mk("bsg", "u8", [1, 2, 3], "BC", order="sorted", implicit="max", idents={1: "Aa", 2: "Bb", 3: "Cc"})
+    sh = C.mk("bsh", "u8", [1, 5, 9], "BC", order="sorted", implicit="none", idents={1: "Aa", 5: "Bb", 9: "Cc"},
+              renames={9: "Zz"})
+    cases = []
+
+    def add(cid, feats, touch="", shapes=("g", "h"), doc="", split=1):
+        for sname, d in (("g", g), ("h", h)):
+            if sname not in shapes:
+                continue
+            b = C.Bundle(cid, feats, split=split)
+            cases.append(BaseCase("%s_%s" % (cid, sname), d, b, touch, doc))
+    modes3 = ["auto", "match", "table"]
+    for m in modes3:
+        add("as_str_" + m, {"as_str": {"mode": m}}, "let _: &'static str = E::as_str(SORTED[0]);")
+        add("from_str_" + m, {"from_str": {"mode": m}}, "let _: Option<E> = E::from_str(\"x\");")
+        add("fromstr_" + m, {"FromStr": {"mode": m}}, "let _: Result<E, ()> = \"x\".parse::<E>();")
+    for f, touch in [("into", "let _: R = E::into(SORTED[0]);"), ("Into", "let _: R = R::from(SORTED[0]);"),
+                     ("IntoStr", "let _: &'static str = <&'static str>::from(SORTED[0]);"),
+                     ("Debug", "let mut s = Sink::new(); let _ = write!(s, \"{:?}\", SORTED[0]);"),
+                     ("Display", "let mut s = Sink::new(); let _ = write!(s, \"{}\", SORTED[0]);"),
+                     ("MAX", "let _: E = E::MAX;"), ("MIN", "let _: E = E::MIN;"),
+                     ("next", "let _: Option<E> = E::next(SORTED[0]);"),
+                     ("next_back", "let _: Option<E> = E::next_back(SORTED[0]);"),
+                     ("try_from", "let _: Option<E> = E::try_from(0);"),
+                     ("TryFrom", "let _: Result<E, ()> = <E as TryFrom<R>>::try_from(0);"),
+                     ("names", "let _: ENames = E::names();")]:
+        add("solo_" + f, {f: None}, touch)
+    for m in ["auto", "next_and_back", "table", "table_inline", "match", "range"]:
+        add("iter_" + m, {"iter": {"mode": m}}, "let _: EIter = E::iter();",
+            shapes=("g",) if m == "range" else ("g", "h"),
+            doc="src/lib.rs iter: mode " + m)
+    for m in ["auto", "next_and_back", "table", "range"]:
+        add("range_" + m, {"iter": {"mode": m}, "range": None}, "let _: EIter = E::range(SORTED[0], SORTED[1]);",
+            shapes=("g",) if m == "range" else ("g", "h"))
+    # common parameters name / vis
+    for vis in ["", "pub(crate)", "pub"]:
+        tag = {"": "priv", "pub(crate)": "crate", "pub": "pub"}[vis]
+        add("vis_" + tag, {"as_str": {"vis": vis, "name": "label"}, "MIN": {"vis": vis, "name": "FIRST"},
+                           "iter": {"vis": vis, "name": "all"}, "names": {"vis": vis},
+                           "next": {"name": "succ", "vis": vis}, "try_from": {"name": "from_repr"}},
+            "let _ = E::label(E::FIRST); let _ = E::all(); let _ = E::succ(E::FIRST); let _ = E::from_repr(0); let _ = E::names();")
+    add("struct_name", {"iter": {"struct_name": "Walk"}, "names": {"struct_name": "Labels"}},
+        "let _: Walk = E::iter(); let _: Labels = E::names();", doc="src/lib.rs: struct_name parameter of iter and names")
+    # everything, one attribute / several attributes
+    add("all_one", BUNDLES["A"].feats, split=1)
+    add("all_split", BUNDLES["A"].feats, split=4)
+    add("all_match", BUNDLES["M"].feats, split=2)
+    add("all_table", BUNDLES["T"].feats, split=1)
+    add("all_range", BUNDLES["R"].feats, shapes=("g",))
+    add("all_inline", BUNDLES["I"].feats)
+    add("custom_names", BUNDLES["N"].feats, split=2)
+    # sorted (compile-time feature) on sorted declarations
+    for sname, d in (("g", sg), ("h", sh)):
+        for cid, par in (("sorted_name", {"name": True}), ("sorted_value", {"value": True}),
+                         ("sorted_both", {"name": True, "value": True})):
+            cases.append(BaseCase("%s_%s" % (cid, sname), d, C.Bundle(cid, {"sorted": par, "as_str": None}), ""))
+    return cases
